@@ -6,6 +6,7 @@ import (
 	"os"
 	"path/filepath"
 
+	"sigs.k8s.io/yaml"
 	"tags.cncf.io/container-device-interface/pkg/cdi"
 	specs "tags.cncf.io/container-device-interface/specs-go"
 	"verif/harness/hx"
@@ -19,6 +20,25 @@ const nFeat06 = 7
 var featNames06 = []string{"mountType", "hostPath", "digitName", "annotations", "dottedClass", "intelRdt", "additionalGids"}
 
 var c06Variant int
+var c06Files int
+
+// lookalike gives location loc (-1 = spec level) everything that resembles a gated feature without being one: an empty but
+// present annotation map and gid list, mounts and device nodes whose type / hostPath is the empty string, no RDT.
+func lookalike(s *specs.Spec, loc int) {
+	e := &s.ContainerEdits
+	if loc >= 0 {
+		e = &s.Devices[loc].ContainerEdits
+		s.Devices[loc].Annotations = map[string]string{}
+		s.Devices[loc].Name = "d0" + s.Devices[loc].Name + "9"
+	} else {
+		s.Annotations = map[string]string{}
+	}
+	e.AdditionalGIDs = []uint32{}
+	e.Mounts = append(e.Mounts, &specs.Mount{HostPath: "/h", ContainerPath: "/c", Type: "", Options: []string{"bind", "type=x"}})
+	e.DeviceNodes = append(e.DeviceNodes, &specs.DeviceNode{Path: "/dev/hostPath", HostPath: "", Type: "c", Major: 1})
+	e.Hooks = append(e.Hooks, &specs.Hook{HookName: "prestart", Path: "/bin/intelRdt", Args: []string{"additionalGids", "annotations"}})
+	e.Env = append(e.Env, "hostPath=/dev/x", "type=bind")
+}
 
 func plainEdits() specs.ContainerEdits { return specs.ContainerEdits{Env: []string{"A=b"}} }
 
@@ -58,13 +78,14 @@ func applyFeature(s *specs.Spec, f, loc int) {
 			s.Devices[len(s.Devices)-1].Name = "9x"
 		}
 	case 3:
+		a := []map[string]string{{"k": "v"}, {"k": ""}, {"a.b/c": "v", "k": "", "z": "1"}}[v]
 		if loc < 0 {
-			s.Annotations = map[string]string{"k": "v"}
+			s.Annotations = a
 		} else {
-			s.Devices[loc].Annotations = map[string]string{"k": "v"}
+			s.Devices[loc].Annotations = a
 		}
 	case 4:
-		s.Kind = "vendor.com/cl.ass"
+		s.Kind = []string{"vendor.com/cl.ass", "vendor.com/c.l.a.s.s", "v/class.x"}[v]
 	case 5:
 		e.IntelRdt = []*specs.IntelRdt{{ClosID: "c"}, {}, {EnableCMT: true}}[v]
 	case 6:
@@ -76,11 +97,23 @@ func c06Case(s *specs.Spec, class, scratch string, withFile bool, feats []string
 	var minv string
 	var verr error
 	p1, _ := hx.Guard(func() { minv, _ = specs.MinimumRequiredVersion(s) })
+	// the wrapper kept in pkg/cdi must answer the same
+	var minv2 string
+	var merr error
+	p1b, _ := hx.Guard(func() { minv2, merr = cdi.MinimumRequiredVersion(s) })
+	if !p1 && (p1b || merr != nil || minv2 != minv) {
+		minv = "cdi.MinimumRequiredVersion disagrees: " + minv2
+	}
 	p2, _ := hx.Guard(func() { verr = specs.ValidateVersion(s) })
 	rs := 3
 	if withFile {
+		c06Files++
 		data, _ := json.Marshal(s)
 		path := filepath.Join(scratch, "c06.json")
+		if c06Files%2 == 1 {
+			data, _ = yaml.Marshal(s)
+			path = filepath.Join(scratch, "c06.yaml")
+		}
 		_ = os.WriteFile(path, data, 0o644)
 		var rerr error
 		p3, _ := hx.Guard(func() { _, rerr = cdi.ReadSpec(path, 0) })
@@ -111,11 +144,15 @@ func genC06(r *hx.R, tier string, scratch string) (*hx.Suite, error) {
 		Shard:    150,
 		Rule: "every single feature (7) at every placement (spec level, device k of n for n = 1..3) and every rotation of the device list, declared at " +
 			"every released version; all pairs of features at random placements; random feature subsets x placements x declared version strings " +
-			"(released, v-prefixed, vv-prefixed, shorthand 0.6 / 1.0 / 1, build metadata, pre-release, unreleased, junk, empty); null deviceNodes/mounts entries. " +
-			"Otherwise-valid Specs are also written to a file and read with cdi.ReadSpec. Non-trivial: at least one feature or more than one device.",
+			"(released, v-prefixed, vv-prefixed, shorthand 0.6 / 1.0 / 1, build metadata, pre-release, unreleased, junk, empty); null deviceNodes/mounts entries; " +
+			"every unreleased X.Y.Z for X <= 2, Y <= 10, Z <= 1; lookalikes of every feature (present-but-empty maps and lists, empty strings) at every placement; " +
+			"every first character class of a device name; kinds without / with several slashes; Specs without devices; the same Spec value asked again after a change; " +
+			"specs.MinimumRequiredVersion and the cdi wrapper must agree. " +
+			"Otherwise-valid Specs are also written to a file (JSON and YAML in turn) and read with cdi.ReadSpec. Non-trivial: at least one feature or more than one device.",
 	}
 	released := []string{"0.1.0", "0.2.0", "0.3.0", "0.4.0", "0.5.0", "0.6.0", "0.7.0", "0.8.0", "1.0.0"}
-	odd := []string{"v0.5.0", "v1.0.0", "vv0.5.0", "0.6", "1.0", "1", "v0.4", "0.5.0+unreleased", "1.0.0+vendor.1", "0.7.0-rc1", "0.9.0", "0.3.1", "0.0.0", "", "v", "junk", "1.0.0 ", " 1.0.0", "01.0.0", "0.10.0", "2.0.0"}
+	odd := []string{"v0.5.0", "v1.0.0", "vv0.5.0", "0.6", "1.0", "1", "v0.4", "0.5.0+unreleased", "1.0.0+vendor.1", "0.7.0-rc1", "0.9.0", "0.3.1", "0.0.0", "", "v", "junk", "1.0.0 ", " 1.0.0", "01.0.0", "0.10.0", "2.0.0",
+		"V1.0.0", "1.0.0\n", "\t1.0.0", "1.0.0+", "1.0.0-", "1.0.0.0", "0.3.0\x00", "v0.3.0 ", "0.5.0v", "vv", "v v0.5.0", "\xd9\xa1.\xd9\xa0.\xd9\xa0", "0.5.00", "0.05.0", "+0.5.0", "0,5,0", "0.5.0.", ".0.5.0"}
 	mk := func(n int) *specs.Spec {
 		sp := &specs.Spec{Version: "1.0.0", Kind: "vendor.com/class"}
 		for i := 0; i < n; i++ {
@@ -157,6 +194,73 @@ func genC06(r *hx.R, tier string, scratch string) (*hx.Suite, error) {
 		sp2.Version = v
 		s.Add(c06Case(sp2, "declared-version", scratch, true, []string{"hostPath"}))
 	}
+	// every unreleased X.Y.Z around the released ones: none may be accepted (a version added to the table in a form the
+	// translator does not read would show here)
+	isReleased := map[string]bool{}
+	for _, v := range released {
+		isReleased[v] = true
+	}
+	for x := 0; x <= 2; x++ {
+		for y := 0; y <= 10; y++ {
+			for z := 0; z <= 1; z++ {
+				v := fmt.Sprintf("%d.%d.%d", x, y, z)
+				if isReleased[v] {
+					continue
+				}
+				sp := mk(1)
+				sp.Version = v
+				if (x+y+z)%2 == 0 {
+					sp.Version = "v" + v
+				}
+				s.Add(c06Case(sp, "unreleased-version", scratch, y%3 == 0, nil))
+			}
+		}
+	}
+	// lookalikes: present-but-empty annotations and gids, empty type / hostPath, digits elsewhere in the name, the feature
+	// names as values: nothing of it is a feature (0.3.0 is enough, 0.2.0 is below the floor)
+	for n := 1; n <= 3; n++ {
+		for loc := -1; loc < n; loc++ {
+			for _, v := range []string{"0.3.0", "0.2.0"} {
+				sp := mk(n)
+				lookalike(sp, loc)
+				sp.Version = v
+				s.Add(c06Case(sp, "lookalike", scratch, true, nil))
+			}
+		}
+	}
+	// first character of a device name: every digit, the characters next to the digits, digits of other scripts, no name
+	for i, nm := range []string{"0x", "1x", "2x", "3x", "4x", "5x", "6x", "7x", "8x", "9x", "7", "x7", "/x", ":x", "\xd9\xa3x", "\xe0\xa5\xa9", "\xef\xbc\x91x", "", "a", "-1", " 1"} {
+		for k := 0; k < 2; k++ {
+			for _, v := range []string{"0.4.0", "0.5.0"} {
+				sp := mk(2)
+				sp.Devices[k].Name = nm
+				sp.Version = v
+				var feats []string
+				if i <= 10 {
+					feats = []string{"digitName"}
+				}
+				s.Add(c06Case(sp, "name-first-character", scratch, i <= 11, feats))
+			}
+		}
+	}
+	// kinds: the class is what follows the FIRST slash; without a slash there is no class
+	for i, kind := range []string{"vendor.com/class", "a.b/c", "vendor.com/class.x", "vendor.com", "", "/", "a.b", "vendor.com/a/b.c", "vendor.com/a.b/c", "vendor.com/.", "v/c.", "v/.c", "v.com//", "v.com/c/d.e/f"} {
+		for _, v := range []string{"0.5.0", "0.6.0"} {
+			sp := mk(1)
+			sp.Kind = kind
+			sp.Version = v
+			s.Add(c06Case(sp, "kind", scratch, i <= 2, []string{"kind " + kind}))
+		}
+	}
+	// no devices at all: the Spec-level features still count (such a Spec does not load, so no file)
+	for _, f := range []int{0, 1, 3, 4, 5, 6} {
+		for _, v := range []string{"0.3.0", "0.4.0", "0.5.0", "0.6.0", "0.7.0"} {
+			sp := mk(0)
+			applyFeature(sp, f, -1)
+			sp.Version = v
+			s.Add(c06Case(sp, "no-devices", scratch, false, []string{featNames06[f]}))
+		}
+	}
 	// null entries (after the fix they are skipped by the version predicates; ReadSpec rejects them, so no file)
 	for _, v := range []string{"0.3.0", "0.5.0"} {
 		sp := mk(2)
@@ -172,8 +276,14 @@ func genC06(r *hx.R, tier string, scratch string) (*hx.Suite, error) {
 	}
 	for i := 0; i < n; i++ {
 		nd := 1 + r.Intn(3)
+		if r.Chance(0.15) {
+			nd = 4 + r.Intn(4)
+		}
 		sp := mk(nd)
 		var feats []string
+		if r.Chance(0.3) {
+			lookalike(sp, r.Intn(nd+1)-1)
+		}
 		k := r.Intn(4)
 		if tier == "thorough" && r.Chance(0.2) {
 			k = r.Intn(nFeat06 + 1)
@@ -190,6 +300,12 @@ func genC06(r *hx.R, tier string, scratch string) (*hx.Suite, error) {
 			sp.Version = hx.Pick(r, odd)
 		}
 		s.Add(c06Case(sp, "random", scratch, r.Chance(0.5), feats))
+		if r.Chance(0.3) {
+			// the same Spec value asked again after it gained a feature
+			f := r.Intn(nFeat06)
+			applyFeature(sp, f, r.Intn(nd+1)-1)
+			s.Add(c06Case(sp, "same-object", scratch, r.Chance(0.5), append(feats, featNames06[f])))
+		}
 	}
 	return s, nil
 }
